@@ -119,7 +119,7 @@ func cmdCheck(args []string) int {
 			fmt.Println("queries kept in", dir)
 		}
 	}()
-	opt := solveOpts{timeout: 20 * time.Second, workers: (runtime.NumCPU() + 1) / 2, dir: dir, solvers: []string{"z3new", "z3", "cvc5"}, keep: *keep}
+	opt := solveOpts{timeout: 30 * time.Second, workers: (runtime.NumCPU() + 2) / 3, dir: dir, solvers: []string{"z3new", "z3", "cvc5"}, keep: *keep}
 	if *tier == "thorough" {
 		opt.timeout = 60 * time.Second
 		opt.allAgree = true
@@ -135,6 +135,14 @@ func cmdCheck(args []string) int {
 		for _, f := range old {
 			os.Remove(f)
 		}
+	}
+	vac, nchecked := coverAll(eng, fvs, opt)
+	for _, v := range vac {
+		fmt.Printf("VACUOUS %s: its hypotheses (contracts of callees, invariants, preconditions) are contradictory on every path to a return\n", v)
+	}
+	fmt.Printf("govc: vacuity covers: %d functions checked, %d vacuous\n", nchecked, len(vac))
+	if len(vac) > 0 {
+		return 2
 	}
 	results := solveAll(eng, fvs, opt)
 	failed := report(eng, *prop, *tier, fvs, results, under, start, loadMs, *verbose, *evdir, *noev, dir)
